@@ -144,22 +144,22 @@ void h_lbuf_findchar(void)
 	g_n0 = n0;
 	int row0 = row;
 	int ret = lbuf_findchar((struct lbuf *) 0, cs, cmd, n, &row, &off);
-	__CPROVER_assert(row == row0, "lbuf_findchar: the motion stays on its line");
+	H_ASSERT(row == row0, "lbuf_findchar: the motion stays on its line");
 	if (!has_line) {
-		__CPROVER_assert(ret == 1 && off == FI.off0, "lbuf_findchar: no such line - the motion fails and leaves the cursor in place");
+		H_ASSERT(ret == 1 && off == FI.off0, "lbuf_findchar: no such line - the motion fails and leaves the cursor in place");
 		return;
 	}
-	__CPROVER_assert(!FC.bad, "lbuf_findchar: every character from the cursor outwards is examined once, in order");
+	H_ASSERT(!FC.bad, "lbuf_findchar: every character from the cursor outwards is examined once, in order");
 	if (ret) {
-		__CPROVER_assert(off == FI.off0, "lbuf_findchar: a failing motion leaves the cursor in place");
-		__CPROVER_assert(FC.matches < n0 && (FI.deff > 0 ? FC.ci == FI.NC : FC.ci == 0), "lbuf_findchar: the motion fails only when fewer than count occurrences lie between the cursor and the end of the line in that direction");
+		H_ASSERT(off == FI.off0, "lbuf_findchar: a failing motion leaves the cursor in place");
+		H_ASSERT(FC.matches < n0 && (FI.deff > 0 ? FC.ci == FI.NC : FC.ci == 0), "lbuf_findchar: the motion fails only when fewer than count occurrences lie between the cursor and the end of the line in that direction");
 	} else {
-		__CPROVER_assert(FC.matches == n0 && FC.last_match_ci == FC.last_exam_ci, "lbuf_findchar: the scan stops on the count-th occurrence");
+		H_ASSERT(FC.matches == n0 && FC.last_match_ci == FC.last_exam_ci, "lbuf_findchar: the scan stops on the count-th occurrence");
 		if (cmd == 'f' || cmd == 'F')
-			__CPROVER_assert(off == FC.last_match_ci, "lbuf_findchar: f/F land on the count-th occurrence of the character in their direction");
+			H_ASSERT(off == FC.last_match_ci, "lbuf_findchar: f/F land on the count-th occurrence of the character in their direction");
 		else
-			__CPROVER_assert(off == FC.last_match_ci - FI.deff, "lbuf_findchar: t/T land on the character just before the count-th occurrence, seen from the cursor");
-		__CPROVER_assert(0 <= off && off < FI.NC, "lbuf_findchar: the cursor is on an existing character of the line");
+			H_ASSERT(off == FC.last_match_ci - FI.deff, "lbuf_findchar: t/T land on the character just before the count-th occurrence, seen from the cursor");
+		H_ASSERT(0 <= off && off < FI.NC, "lbuf_findchar: the cursor is on an existing character of the line");
 	}
 #ifdef CANARY
 	__CPROVER_assert(0, "canary");
